@@ -52,7 +52,7 @@ pub fn run(args: &[String]) {
     for d in 0..n_digests {
         let digest = if d == 0 { [0u8; 32] } else { rng.felt().to_bytes_be() };
         // for the difficulty n baked into the first hash, grind a nonce whose h2 has many zero bits
-        for n in [0u8, 1, 7, 8, 9, 15, 16, 17, 20, 24, 31, 32, 33, 50, 51, 64, 100, 127, 128] {
+        for n in [0u8, 1, 7, 8, 9, 15, 16, 17, 20, 24, 31, 32, 33, 50, 51, 63, 64, 65, 66, 67, 72, 100, 127, 128] {
             let mut best = (0u64, 0u32);
             let tries = 1u64 << grind.min(if n as u32 <= grind + 2 { grind } else { 8 });
             let start = rng.next();
